@@ -73,6 +73,9 @@ extern std::vector<Frame>   g_frames;
 extern std::map<std::string, int> g_failnext;  // op -> errno (one shot)
 extern int  g_srcip;     // last octet of the local address reported by getsockname
 extern bool g_tfo_ok;    // setsockopt(TFO) succeeds
+extern int  g_chunk;     // default TCP read chunk size (0 = everything)
+extern std::vector<int> g_wscript_default;  // write acceptance script given to every new TCP socket
+extern long g_io_events; // number of send/recv calls so far
 extern int  g_nservers;
 void vsock_install(ares_channel_t *ch);
 void vsock_reset();
